@@ -33,13 +33,21 @@ class Window:
         async def wrapped():                            # pylint: disable=C0111
             # put anything to take a slot in the queue
             await self.queue.put(1)
+            release = True
             try:
                 job._running = True                     # pylint: disable=w0212
                 value = await job.co_run()
+            except Exception:
+                # when a critical job fails, the scheduler is about to abort;
+                # keep the slot, so that no job queued behind this one can
+                # start before the scheduler has cancelled it
+                release = not job.is_critical()
+                raise
             finally:
                 # release slot in the queue, whatever the outcome of the job
                 # (it may have raised, or been cancelled)
-                await self.queue.get()
+                if release:
+                    await self.queue.get()
             # return the right thing
             return value
         return wrapped
